@@ -2364,7 +2364,8 @@ func compDefineX(sc *scope, n *node) error {
 		} else {
 			types = funtype.ret
 		}
-		if n.anc.kind == varDecl && n.child[l-1].isType(sc) {
+		if n.nleft+n.nright < len(n.child) {
+			// The type is declared explicitly.
 			l--
 		}
 		if len(types) != l {
